@@ -2,7 +2,7 @@
 """Differential runs of the driver unit `e2e` (Model/Format.v: the composed model, from the input bytes and the
 configuration alone, against the implementation's output and every stage dump) on generated case sets.
 usage: python3 tools/e2e_diff.py <set>[,<set>...] [n] [seed]
-sets: seeds seeds30 seeds60 seeds120 grammar childline matrix literal soup soup30 mut mut2 bytes cfg toggles asm crlf all
+sets: seeds seeds30 seeds60 seeds120 grammar childline matrix literal soup soup30 mut mut2 bytes cfg toggles asm crlf findings g_<set of grammar_diff.py> all
 needs `python3 tools/vpcheck.py --setup` first; env: DRIVER, RUNDIR, NP, SHOW, KEEP, CASE_MS, UNITS (default e2e)"""
 import sys, os, random, subprocess, time, shutil
 ROOT = os.path.dirname(os.path.dirname(os.path.abspath(__file__)))
@@ -69,9 +69,18 @@ def gen_set(name, n, rng):
         return out
     if name == "toggles": return [(toggled(rng.choice(texts), rng), gen.random_cfg(rng)) for _ in range(n)]
     if name == "asm":
-        al = ["asm", "end", ";", "mov", "ax", ",", "bx", "@lbl:", "\n", "\n", "\r\n", "//c\n", "{c}", "'s'", "begin", "procedure", "P", "[", "]", "(", ")", "{$IFDEF A}", "{$ENDIF}", "{$ELSE}", "end;", "end.", "db", "$FF", "// pasfmt off\n", "{pasfmt on}"]
+        al = ["asm", "end", ";", "mov", "ax", ",", "bx", "@lbl:", "\n", "\n", "\r\n", "\r", "//c\n", "{c}", "'s'", "begin", "procedure", "P", "[", "]", "(", ")", "{$IFDEF A}", "{$ENDIF}", "{$ELSE}", "end;", "end.", "db", "$FF", "// pasfmt off\n", "{pasfmt on}"]
         return [(" ".join(rng.choice(al) for _ in range(rng.randrange(1, 25))).replace(" \n ", "\n"), gen.random_cfg(rng)) for _ in range(n)]
     if name == "crlf": return [(gen.to_crlf(rng.choice(texts)), gen.random_cfg(rng)) for _ in range(n)]
+    if name == "findings":
+        # the witnesses of known_findings.json (fixed ones are regression inputs, known ones must still agree with the model)
+        import json
+        out = []
+        for f in json.load(open(os.path.join(ROOT, "known_findings.json")))["findings"]:
+            for w in ([f["witness"]] if "witness" in f else []) + f.get("witnesses", []):
+                if isinstance(w, dict) and isinstance(w.get("input"), str):
+                    out.append((w["input"], tuple(w.get("cfg", DEFAULT))))
+        return out
     if name.startswith("g_"):
         # the sets of tools/grammar_diff.py (special quirks quirks2 portab pairs triples ctxsoup dirheavy gdir gmut nest seedsdir mutdir ...)
         import grammar_diff
